@@ -1,0 +1,73 @@
+//go:build verif
+
+// Contracts for package recovery, checked by /verif (govc). Ghost functions and
+// comments only.
+package recovery
+
+func forall(lo, hi int, f func(int) bool) bool {
+	for i := lo; i < hi; i++ {
+		if !f(i) {
+			return false
+		}
+	}
+	return true
+}
+
+// A checkpoint answers IncludesTable from its URI index. The index must cover
+// every table of the level list the checkpoint retains, for checkpoints loaded
+// from a document as well as for those created by Add in this process.
+//@ define ckptIndexed(cp) := cp != nil && cp.Levels != nil &&
+//@        forall(0, len(cp.Levels.levels), func(ii_ int) bool { return cp.Levels.levels[ii_].tables != nil &&
+//@          forall(0, len(cp.Levels.levels[ii_].tables.l), func(jj_ int) bool { return has(cp.tableURIset, sst.ghostTableURI(cp.Levels.levels[ii_].tables.l[jj_])) }) })
+
+//@ func Checkpoint.IncludesTable
+//@   property C09
+//@   modifies nothing
+//@   ensures result == has(cp.tableURIset, uri)
+
+//@ func CheckpointList.Add
+//@   property C09 C08
+//@   nosafety
+//@   requires ll != nil && w != nil && forall(0, len(ll.levels), func(i int) bool { return ll.levels[i].tables != nil })
+//@   modifies cl.checkpoints
+//@   ensures len(cl.checkpoints) == old(len(cl.checkpoints)) + 1
+//@   ensures forall(0, old(len(cl.checkpoints)), func(j int) bool { return cl.checkpoints[j] == old(cl.checkpoints)[j] })
+//@   ensures cl.checkpoints[old(len(cl.checkpoints))].ID == ckptID && cl.checkpoints[old(len(cl.checkpoints))].Levels == ll && cl.checkpoints[old(len(cl.checkpoints))].LastSeqNum == lastSeqNum
+//@   ensures len(cl.checkpoints[old(len(cl.checkpoints))].WALs) == 1
+//@   ensures ckptIndexed(cl.checkpoints[old(len(cl.checkpoints))])
+
+// IncludesTable: true iff some retained checkpoint's index holds the URI.
+//@ func CheckpointList.IncludesTable
+//@   property C09
+//@   modifies nothing
+//@   ensures result == exists(0, len(cl.checkpoints), func(j int) bool { return has(cl.checkpoints[j].tableURIset, uri) })
+//@   loop 0:
+//@     invariant forall(0, idx_, func(j int) bool { return !has(cl.checkpoints[j].tableURIset, uri) })
+
+// RetainOnly keeps exactly the checkpoints whose id is listed, in order; the
+// others wait in checkpointsPendingRemoval until the next successful Save.
+//@ func CheckpointList.RetainOnly
+//@   property C09 C13
+//@   panics when forall(0, len(cl.checkpoints), func(j int) bool { return !exists(0, len(ids), func(k int) bool { return ids[k] == cl.checkpoints[j].ID }) })
+//@   modifies cl.checkpoints, cl.checkpointsPendingRemoval
+//@   ensures forall(0, len(cl.checkpoints), func(j int) bool { return exists(0, len(ids), func(k int) bool { return ids[k] == cl.checkpoints[j].ID }) &&
+//@           exists(0, old(len(cl.checkpoints)), func(m int) bool { return old(cl.checkpoints)[m] == cl.checkpoints[j] }) })
+//@   ensures forall(0, old(len(cl.checkpoints)), func(m int) bool { return exists(0, len(ids), func(k int) bool { return ids[k] == old(cl.checkpoints)[m].ID }) ==>
+//@           exists(0, len(cl.checkpoints), func(j int) bool { return cl.checkpoints[j] == old(cl.checkpoints)[m] }) })
+//@   ensures forall(0, old(len(cl.checkpoints)), func(m int) bool { return !exists(0, len(ids), func(k int) bool { return ids[k] == old(cl.checkpoints)[m].ID }) ==>
+//@           exists(0, len(cl.checkpointsPendingRemoval), func(j int) bool { return cl.checkpointsPendingRemoval[j] == old(cl.checkpoints)[m] }) })
+//@   ensures len(cl.checkpoints) >= 1
+//@   loop 0:
+//@     invariant same(cl.checkpoints, coll_) && idsSet != nil
+//@     invariant forall(func(x uint64) bool { return has(idsSet.m, x) == exists(0, len(ids), func(k int) bool { return ids[k] == x }) })
+//@     invariant forall(0, len(nextCheckpoints), func(j int) bool { return has(idsSet.m, nextCheckpoints[j].ID) && exists(0, idx_, func(m int) bool { return coll_[m] == nextCheckpoints[j] }) })
+//@     invariant forall(0, idx_, func(m int) bool { return has(idsSet.m, coll_[m].ID) ==> exists(0, len(nextCheckpoints), func(j int) bool { return nextCheckpoints[j] == coll_[m] }) })
+//@     invariant forall(0, idx_, func(m int) bool { return !has(idsSet.m, coll_[m].ID) ==> exists(0, len(cl.checkpointsPendingRemoval), func(j int) bool { return cl.checkpointsPendingRemoval[j] == coll_[m] }) })
+
+// Save: WAL files of dropped checkpoints are deleted only after the new
+// checkpoints file has been written and saved.
+//@ func CheckpointList.Save
+//@   property C09 C08
+//@   nosafety
+//@   order Destroy after Save
+//@   order Destroy after Write
